@@ -217,7 +217,7 @@ func wTerm(tag string, allowVar bool, depth int) Term {
 		return String(wTermName(tag + ".str"))
 	case 2:
 		s := vInt64(tag + ".date")
-		vAssume(vAnd(s >= 0, s < 4102444800)) // dates from 1970 to 2100
+		// any instant the wire format can carry (seconds as a 64-bit number), including before 1970
 		return Date(time.Unix(s, 0))
 	case 3:
 		return Bytes(vBytes(tag+".bytes", vChoose(tag+".byteslen", 3)))
